@@ -359,9 +359,22 @@ class Server:
             try:
                 s = socket.create_connection(("127.0.0.1", self.port), timeout=0.5)
                 s.close()
-                return True
             except OSError:
                 time.sleep(0.001)
+                continue
+            # The client port answers, but the process binds its other listeners (health check, gossip) around the same
+            # time: if one of those loses a port race it exits a moment after having accepted here. A short grace period
+            # turns that into "did not come up" (which every caller answers by starting again), instead of a connection
+            # refused in the middle of a case.
+            time.sleep(0.12)
+            if self.p.poll() is not None:
+                return False
+            try:
+                s = socket.create_connection(("127.0.0.1", self.port), timeout=0.5)
+                s.close()
+                return True
+            except OSError:
+                continue
         return False
 
     def alive(self):
